@@ -355,6 +355,8 @@ def _pure_arith(a):
         return a.get("op") != "*" and _pure_arith(a["e"]) if k == "un" else _pure_arith(a["e"])
     if k == "bin":
         return _pure_arith(a["l"]) and _pure_arith(a["r"])
+    if k == "mcall" and not a.get("args") and a.get("name") in ("len", "nbr_sincs", "nbr_channels", "is_empty", "floor", "ceil", "abs"):
+        return _pure_arith(a["recv"])
     return False
 
 
@@ -638,7 +640,7 @@ def inline_expr_helpers(doc, log):
         used.add(fn["name"])
         out = _subst(copy.deepcopy(body), env)
         out = rewrite(out, owner, depth + 1)
-        return {"k": "paren", "e": out, "ln": n.get("ln", 0)} if out.get("k") in ("bin", "cast", "un") else out
+        return out
 
     for path, owner, is_trait, fn in fns:
         if fn.get("body") is None:
